@@ -46,8 +46,9 @@ def originNormal (sd : SuffixData) : Option Json := sd.anchorOrigin.bind normali
 
 /-- **marshalling suffix data forgets nothing but the member order inside the anchor origin**:
     equal normal forms of the marshalled structs ⇒ equal strings, and anchor origins that are both
-    absent or both present with equal normal forms. (No side condition: `some .null` and `none`
-    are told apart — the one marshals to a member `null`, the other to no member.) -/
+    absent or both present with equal normal forms. (No side condition needed: the junk state
+    `some .null`, which neither Go nor `SuffixData.ofJson?` can produce, is kept apart from `none`
+    by the model's `toJson`.) -/
 theorem suffix_data_injective (sd1 sd2 : SuffixData) (n : Json)
     (h1 : normalize sd1.toJson = some n) (h2 : normalize sd2.toJson = some n) :
     sd1.deltaHash = sd2.deltaHash ∧ sd1.recoveryCommitment = sd2.recoveryCommitment ∧ sd1.type = sd2.type ∧
@@ -309,8 +310,9 @@ example :
     intro a ha; cases ha; exact Props.C05.intsOnly_numsStable _ (by decide)
   exact ⟨st, st, suffix_numsStable sd1 st, by decide⟩
 
-/-- `none` and `some null` are told apart by the marshalled form (no side condition is needed in
-    `suffix_data_injective`): the second has a member, the first has none -/
+/-- `none` and the junk state `some null` (not a state Go's `interface{}` with `omitempty` or the
+    decoder can produce) are kept apart by the model's marshalled form, so `suffix_data_injective`
+    needs no side condition: the second has a member, the first has none -/
 example : (SuffixData.toJson ⟨"a", "b", none, ""⟩).get? "anchorOrigin" = none ∧
     (SuffixData.toJson ⟨"a", "b", some .null, ""⟩).get? "anchorOrigin" = some .null := by
   constructor <;> simp [SuffixData.toJson, Json.get?, Json.lookup]
